@@ -385,6 +385,45 @@ def wrapPolicyAllows (path op : String) : Bool :=
   (path == "cubbyhole/response" && (op == "read" || op == "create")) ||
   (path == "sys/wrapping/unwrap" && op == "update")
 
+/-- the token entry `wrapInCubbyhole` (wrapping.go) creates for the wrapping token, as far as authorisation looks at
+it: the policy list, the entity the token is bound to, and whether identity policies are excluded -/
+structure WTokEntry where
+  policies : List String
+  entityID : String
+  noIdentityPolicies : Bool
+deriving DecidableEq, Repr
+
+/-- `wrapInCubbyhole`: whoever asked for the wrapping (the requester's `auth.EntityID`), the wrapping token carries the
+`response-wrapping` policy only and is bound to NO entity -/
+def wrapTokenEntry (_requesterEntity : String) : WTokEntry :=
+  { policies := ["response-wrapping"], entityID := "", noIdentityPolicies := false }
+
+/-- NOT the code (seeded change C18-3): the wrapping token inherits the requester's entity -/
+def wrapTokenEntryInheriting (requesterEntity : String) : WTokEntry :=
+  { policies := ["response-wrapping"], entityID := requesterEntity, noIdentityPolicies := false }
+
+/-- `fetchACLTokenEntryAndEntity`: the token's own policies plus — when it is bound to an entity and identity policies
+are not excluded — the identity policies of that entity (`identity` = the identity store's answer) -/
+def effectivePolicies (identity : String → List String) (te : WTokEntry) : List String :=
+  te.policies ++ (if te.entityID != "" && !te.noIdentityPolicies then identity te.entityID else [])
+
+/-- the identity policy of the harness's entity (`c18ident`) -/
+def identPolicyAllows (path op : String) : Bool :=
+  (path == "rec/data/a" && (op == "read" || op == "update" || op == "create")) ||
+  (path == "sys/mounts" && op == "read") ||
+  (path == "sys/policies/acl/default" && op == "read") ||
+  (path == "auth/token/create" && op == "update")
+
+def namedPolicyAllows (name path op : String) : Bool :=
+  if name == "response-wrapping" then wrapPolicyAllows path op
+  else if name == "c18ident" then identPolicyAllows path op
+  else false
+
+/-- what a request on `path` with a fresh wrapping token as its client token is allowed to do, when the wrapping was
+requested by a token bound to `requesterEntity` ("" = none) -/
+def wrapTokenAllows (identity : String → List String) (requesterEntity path op : String) : Bool :=
+  (effectivePolicies identity (wrapTokenEntry requesterEntity)).any (namedPolicyAllows · path op)
+
 /-! ### The wrapping information record through rewrap generations (C18: "lookup reports the path that created it")
 
 `wrapInCubbyhole` (wrapping.go): the new token's `te.Path` is the path of the CURRENT request; the response's
